@@ -205,3 +205,47 @@ func (m *Monitors) restoreEnd() {
 		}
 	}
 }
+
+func init() {
+	// several Apply calls in flight (leader cut off, nothing commits) when the Restore is performed
+	regScenario("restore3-inflight", func() *Scenario {
+		return &Scenario{Nodes: voters(3), Devs: DevAll, Horizon: 800, Goal: goalConverged, AutoRestart: true, Liveness: true,
+			Steps: []Step{
+				stepApplyLeader("apply1"),
+				stepDo("isolate-leader+3-applies", whenSettled, func(w *World) {
+					l := w.leader()
+					w.vals["L"] = l.id
+					w.isolate(l.id, true)
+					w.apply(l, 0)
+					w.apply(l, 0)
+					w.apply(l, 0)
+				}),
+				stepDo("restore-with-applies-in-flight", func(w *World) bool {
+					l := w.nodes[w.vals["L"]]
+					return w.netIdle() && l.r.State() == raft.Leader && len(l.r.VerifDump().Inflight) >= 3
+				}, func(w *World) { l := w.nodes[w.vals["L"]]; w.restore(l, l.r.LastIndex()+2, "inflight") }),
+				stepDo("heal", func(w *World) bool {
+					l := w.nodes[w.vals["L"]]
+					s := l.snaps.Newest()
+					return s != nil && w.netIdle()
+				}, func(w *World) { w.isolate(w.vals["L"], false) }),
+				stepDo("apply-final", whenSettled, func(w *World) { w.apply(w.leader(), 0) }),
+			}}
+	})
+}
+
+// restoreInflight: calls in flight when a Restore was performed must have resolved by the end of the run.
+func (m *Monitors) restoreInflight() {
+	w := m.w
+	for _, c := range w.calls {
+		if c.Kind != "restore" || !c.Done {
+			continue
+		}
+		for _, a := range w.calls {
+			if a.Kind == "apply" && a.Node == c.Node && a.Inc == c.Inc && a.InvokeEv < c.InvokeEv && !a.Done && w.events-c.InvokeEv >= 200 {
+				m.fail("C20", "inflight-call-unresolved-after-restore", "call%d (apply %s) was in flight on n%d when Restore (call%d, result %v) was performed and is still unresolved %d events later", a.ID, a.Payload, a.Node, c.ID, c.Err, w.events-c.InvokeEv)
+				return
+			}
+		}
+	}
+}
